@@ -2,7 +2,7 @@
 # for every seeded change: apply to a scratch copy of /repo/kingdon (KVC_REPO; /repo untouched, evidence redirected), run the
 # checks named in its meta.json (quick tier); prints the detection matrix
 cd /verif
-SCR=/var/tmp/kvcscratch/matrix; rm -rf $SCR; mkdir -p $SCR/out
+SCR=/var/tmp/kvcscratch/matrix${VERIF_SEED:-}; rm -rf $SCR; mkdir -p $SCR/out
 for d in seeded/*/; do n=$(basename $d); props=$(python3 -c "import json;print(' '.join(json.load(open('$d/meta.json'))['checks_to_run']))")
   rm -rf $SCR/repo; mkdir -p $SCR/repo; cp -r /repo/kingdon $SCR/repo/kingdon
   (cd $SCR/repo && patch -s -p1 < /verif/$d/patch.diff) || { echo "$n: patch does not apply"; continue; }
